@@ -2,6 +2,7 @@
 package c01
 
 import (
+	"testing/iotest"
 	"bytes"
 	"compress/gzip"
 	"fmt"
@@ -236,6 +237,20 @@ func RoundTrip(p *profile.Profile, origin string) (string, bool) {
 	pz, err := profile.Parse(bytes.NewReader(z.Bytes()))
 	if err != nil {
 		return fmt.Sprintf("%s: Parse(Write(p)) failed: %v", origin, err), false
+	}
+	// readers that hand out the stream in small pieces (pipes, sockets): one byte at a time, and
+	// half of what is asked for
+	for name, rd := range map[string]io.Reader{"one byte per Read": iotest.OneByteReader(bytes.NewReader(z.Bytes())), "half reads": iotest.HalfReader(bytes.NewReader(z.Bytes())), "data with EOF": iotest.DataErrReader(bytes.NewReader(z.Bytes()))} {
+		if len(z.Bytes()) > 1<<16 {
+			break
+		}
+		pr, err := profile.Parse(rd)
+		if err != nil {
+			return fmt.Sprintf("%s: Parse(Write(p)) failed through a reader delivering %s: %v", origin, name, err), false
+		}
+		if v := wire.ViewProfile(pr); v != want {
+			return fmt.Sprintf("%s: Parse through a reader delivering %s differs\n--- want\n%s--- got\n%s", origin, name, want, v), false
+		}
 	}
 	if vz := wire.ViewProfile(pz); vz != want {
 		return fmt.Sprintf("%s: gzip round trip differs\n--- want\n%s--- got\n%s", origin, want, vz), false
@@ -487,7 +502,7 @@ func init() {
 		ID:    "C01",
 		Level: "exploration",
 		Rule: "part gen: codec-class generator (sparse/huge/boundary ids, 0..4 sample types, 0..4 elements in every repeated field, extreme int64, empty/NUL/non-UTF8/long strings, partial units); part corpus: every repository testdata file that ParseData accepts (protobuf and legacy). part driver: codec-class profiles saved by the real driver with -proto: the reparsed output must carry the same values per (frames with every attribute incl. columns, labels) as the input (fake mapping for mapping-less profiles excepted), and -raw / -traces of it must equal the direct rendering. " +
-			"oracle per profile: independent wire decoder view == normalised in-memory view; ParseUncompressed/Parse/ParseData of the written bytes == original, also after the caller's input buffer has been overwritten; gunzip(Write)==WriteUncompressed; byte fixpoint from the first re-serialisation; Copy equal, pointer-disjoint, mutation-isolated; inputs unmodified; the same object changed in place (mapping cleared/set, line re-pointed, labels removed/replaced, header cleared) and serialized again must round-trip according to its new contents. " +
+			"oracle per profile: independent wire decoder view == normalised in-memory view; ParseUncompressed/Parse/ParseData of the written bytes == original, also after the caller's input buffer has been overwritten; gunzip(Write)==WriteUncompressed; Parse of the compressed bytes through readers that deliver one byte / half of the request / data together with EOF; byte fixpoint from the first re-serialisation; Copy equal, pointer-disjoint, mutation-isolated; inputs unmodified; the same object changed in place (mapping cleared/set, line re-pointed, labels removed/replaced, header cleared) and serialized again must round-trip according to its new contents. " +
 			"non-trivial = has at least one sample, location or function; distinct = distinct table-size signature (or file)",
 		Assumptions: []string{"normalisation N: labels with empty string value, and numeric value 0 without unit, are unrepresentable in proto3 and dropped", "NumUnit is absent or as long as NumLabel (documented contract)"},
 		Parts: []harness.Part{
